@@ -1,8 +1,119 @@
-(* Properties_C14.v -- the C14 theorems and nothing else. *)
+(* Properties_C14.v -- the C14 theorems and nothing else.  Each is closed by [exact] of a
+   lemma from SeqProofs*.v and followed by Print Assumptions.
+   Model: coq/SeqModel.v (heap of blocks; reads / writes through freed, out-of-range or
+   null positions are Error UAF / OOB / NullDeref).  All statements quantify over every
+   finite operation history / every state satisfying the pool invariant (induction, no bound),
+   every pool size (objects are indexed by nat) and, for Array, every element type. *)
 From Coq Require Import NArith List.
-From Qv Require Import SeqModel SeqProofs.
+From Qv Require Import SeqModel SeqProofs SeqProofsArray SeqProofsStream SeqProofsString SeqProofsView SeqProofsMem SeqProofsTop.
 Import ListNotations.
 
-Theorem c14_placeholder : forall T (f : nat -> T) i v, upd f i v i = v.
-Proof. exact upd_same. Qed.
-Print Assumptions c14_placeholder.
+(* ---- Array<T>: histories from the empty pool ---- *)
+(* the model never fails, its outputs are the list specification's outputs, what an observer
+   reads of every object is the specification's list, and size <= capacity *)
+Theorem c14_array_history : forall (A : Type) (junk d : A) (ops : list (@aop A)), Forall aop_ok ops ->
+  exists w, run (astep junk d) ops world0 = Ok (w, snd (spec_run (aspec d) ops spec0)) /\
+    forall k, dump w k = Ok (fst (spec_run (aspec d) ops spec0) k) /\ size (ob w k) <= cap (ob w k).
+Proof. exact @array_history. Qed.
+Print Assumptions c14_array_history.
+
+(* no use-after-free, out-of-bounds or null access in any history *)
+Theorem c14_array_no_uaf_oob : forall (A : Type) (junk d : A) (ops : list (@aop A)) e,
+  Forall aop_ok ops -> run (astep junk d) ops world0 <> Error e.
+Proof. exact @array_no_error. Qed.
+Print Assumptions c14_array_no_uaf_oob.
+
+(* per operation, from every state of the pool invariant *)
+Theorem c14_array_step : forall (A : Type) (junk d : A) (w : @world A) s op, ainv w s -> aop_ok op ->
+  exists w', astep junk d w op = Ok (w', snd (aspec d s op)) /\ ainv w' (fst (aspec d s op)).
+Proof. exact @astep_refines. Qed.
+Print Assumptions c14_array_step.
+
+(* the invariant means: contents = specification, size <= capacity *)
+Theorem c14_array_invariant_meaning : forall (A : Type) (w : @world A) s k, ainv w s ->
+  dump w k = Ok (s k) /\ size (ob w k) <= cap (ob w k).
+Proof. exact @ainv_dump. Qed.
+Print Assumptions c14_array_invariant_meaning.
+
+(* appends (item, another array, the array itself, one of its own elements) keep every earlier
+   element and every other object *)
+Theorem c14_array_append_keeps_prefix : forall (A : Type) (junk d : A) (w : @world A) s op i, ainv w s -> aop_ok op ->
+  (exists x, op = AAppendItem i x) \/ (exists j, op = AAppendCopy i j) \/ (exists k, op = AAppendOwn i k) ->
+  exists w' tail, astep junk d w op = Ok (w', ONone) /\ dump w' i = Ok (s i ++ tail) /\
+    forall k, k <> i -> dump w' k = Ok (s k).
+Proof. exact @array_append_keeps_prefix. Qed.
+Print Assumptions c14_array_append_keeps_prefix.
+
+(* capacity changes never lose or duplicate elements *)
+Theorem c14_array_capacity_keeps_content : forall (A : Type) (junk d : A) (w : @world A) s op, ainv w s ->
+  (exists i n, op = AExpect i n) \/ (exists i, op = ACompress i) \/ (exists i n, op = AResize i n /\ length (s i) <= n) ->
+  exists w', astep junk d w op = Ok (w', ONone) /\ forall k, dump w' k = Ok (s k).
+Proof. exact @array_capacity_keeps_content. Qed.
+Print Assumptions c14_array_capacity_keeps_content.
+
+(* ---- String ---- *)
+(* as above, and the NUL terminator is present at [Length()] of every object after every history *)
+Theorem c14_string_history : forall ops : list sop, Forall sop_ok ops ->
+  exists w, run sstep ops world0 = Ok (w, snd (spec_run sspec ops spec0)) /\
+    forall k, dump w k = Ok (fst (spec_run sspec ops spec0) k) /\ term_ok w k = Ok true.
+Proof. exact string_history. Qed.
+Print Assumptions c14_string_history.
+
+Theorem c14_string_no_uaf_oob : forall (ops : list sop) e, Forall sop_ok ops -> run sstep ops world0 <> Error e.
+Proof. exact string_no_error. Qed.
+Print Assumptions c14_string_no_uaf_oob.
+
+Theorem c14_string_step : forall (w : wN) s op, sinv w s -> sop_ok op ->
+  exists w', sstep w op = Ok (w', snd (sspec s op)) /\ sinv w' (fst (sspec s op)).
+Proof. exact sstep_refines. Qed.
+Print Assumptions c14_string_step.
+
+Theorem c14_string_invariant_meaning : forall (w : wN) s k, sinv w s -> dump w k = Ok (s k) /\ term_ok w k = Ok true.
+Proof. exact sinv_dump. Qed.
+Print Assumptions c14_string_invariant_meaning.
+
+(* ---- StringStream ---- *)
+Theorem c14_stream_history : forall ops : list top, Forall top_ok ops ->
+  exists w, run tstep ops world0 = Ok (w, snd (spec_run tspec ops spec0)) /\
+    forall k, dump w k = Ok (fst (spec_run tspec ops spec0) k) /\ size (ob w k) <= cap (ob w k).
+Proof. exact stream_history. Qed.
+Print Assumptions c14_stream_history.
+
+Theorem c14_stream_no_uaf_oob : forall (ops : list top) e, Forall top_ok ops -> run tstep ops world0 <> Error e.
+Proof. exact stream_no_error. Qed.
+Print Assumptions c14_stream_no_uaf_oob.
+
+Theorem c14_stream_step : forall (w : wN) s op, ainv w s -> top_ok op ->
+  exists w', tstep w op = Ok (w', snd (tspec s op)) /\ ainv w' (fst (tspec s op)).
+Proof. exact tstep_refines. Qed.
+Print Assumptions c14_stream_step.
+
+(* D19: a stream appended to itself, from every state, growing or not *)
+Theorem c14_stream_self_append : forall (w : wN) s i, ainv w s ->
+  exists w', tstep w (TAppendObj i i) = Ok (w', ONone) /\ dump w' i = Ok (s i ++ s i) /\
+    forall k, k <> i -> dump w' k = Ok (s k).
+Proof. exact stream_self_append. Qed.
+Print Assumptions c14_stream_self_append.
+
+(* ---- StringView ---- *)
+Theorem c14_view_history : forall ops : list vop,
+  exists w, run vstep ops world0 = Ok (w, snd (spec_run vspec ops spec0)) /\
+    forall k, dump w k = Ok (fst (spec_run vspec ops spec0) k).
+Proof. exact view_history. Qed.
+Print Assumptions c14_view_history.
+
+(* ---- the loops behind Reverse / InsertAt / Trim equal their list meaning ---- *)
+Theorem c14_reverse_loop : forall c idx, rev_loop (length c) idx (length c) c = firstn idx c ++ rev (skipn idx c).
+Proof. exact SeqProofsUnits.rev_loop_spec. Qed.
+Print Assumptions c14_reverse_loop.
+
+(* ---- Memory::Copy / Memory::SetToZero: every block size 2^shift, every length, scalar or SIMD ---- *)
+Theorem c14_copy_blocks : forall simd shift n src dst, n <= length src -> n <= length dst ->
+  copy_blocks simd shift n src dst = Ok (firstn n src ++ skipn n dst).
+Proof. exact copy_blocks_is_memcpy. Qed.
+Print Assumptions c14_copy_blocks.
+
+Theorem c14_zero_blocks : forall simd shift n dst, n <= length dst ->
+  zero_blocks simd shift n dst = Ok (repeat 0%N n ++ skipn n dst).
+Proof. exact zero_blocks_is_memset. Qed.
+Print Assumptions c14_zero_blocks.
